@@ -114,7 +114,7 @@ def main():
         rc, out = sh("go build ./...", cwd=REPO)
         res["builds"] = rc == 0
         if "--no-baseline" not in flags:
-            rc, out = sh(["python3", os.path.join(VERIF, "tools/baseline.py")])
+            rc, out = sh(["python3", os.path.join(VERIF, "tools/baseline.py"), REPO])
             res["baseline_ok"] = rc == 0
             if rc != 0:
                 res["baseline_out"] = out[-400:]
